@@ -46,7 +46,9 @@ class iterable_storage(Storage):
             elif value is None:
                 pass
             else:
-                assert 'Unknown Python type: %r' % value
+                # a value of any other class (time, timedelta, set, ...):
+                # only 'any' can hold it
+                types.add('any')
         if len(types) != 1:
             return 'any'
         else:
